@@ -67,3 +67,34 @@ def check_parse_offset(b, mode):
     want = (-val, 0)
     if got != want: return "parse(%r, %r) = %s, expected %s (offset text %r denotes %+d s)" % (f, b"00:00 " + b, got, want, b[:used], val)
     return None
+
+_asan = {}
+def asan_exe():
+    import subprocess
+    if "p" in _asan: return _asan["p"]
+    R = build.REPO + "/src/"
+    out = os.path.join(build.workdir(), "fmt_asan")
+    srcs = [R + f for f in ("time_zone_if.cc", "time_zone_fixed.cc", "time_zone_posix.cc", "time_zone_libc.cc", "time_zone_info.cc", "zone_info_source.cc",
+                            "civil_time_detail.cc", "time_zone_impl.cc", "time_zone_lookup.cc", "time_zone_format.cc")]
+    r = subprocess.run(["clang++-14", "-std=c++17", "-O1", "-g", "-fsanitize=address,undefined", "-fno-sanitize-recover=all", "-I" + build.REPO + "/include", "-I" + build.REPO + "/src",
+                        os.path.join(V, "replay", "fmt_asan.cc")] + srcs + ["-o", out, "-lpthread"], capture_output=True, text=True)
+    if r.returncode != 0: raise RuntimeError("asan replay build failed: " + r.stderr[-1200:])
+    _asan["p"] = out
+    return out
+def asan_format(f, sec, fs, offset):
+    """None if clean, else the sanitizer's first report line"""
+    import subprocess
+    p = subprocess.run([asan_exe(), "format", f, str(sec), str(fs), str(offset)], capture_output=True, text=True, timeout=60)
+    err = p.stderr
+    if "ERROR: AddressSanitizer" in err or "runtime error" in err:
+        line = [l for l in err.split("\n") if "ERROR: AddressSanitizer" in l or "runtime error" in l][0]
+        return "format(%r) under ASan/UBSan: %s" % (f, line.strip()[:240])
+    return None
+def asan_parse(f, data, offset=0):
+    import subprocess
+    p = subprocess.run([asan_exe(), "parse", f, data, str(offset)], capture_output=True, text=True, timeout=60)
+    err = p.stderr
+    if "ERROR: AddressSanitizer" in err or "runtime error" in err:
+        line = [l for l in err.split("\n") if "ERROR: AddressSanitizer" in l or "runtime error" in l][0]
+        return "parse(%r, %r) under ASan/UBSan: %s" % (f, data, line.strip()[:240])
+    return None
